@@ -11,3 +11,24 @@ package http
 //@ requires w != nil && w.client != nil
 // a hand-off counts as delivered only when the receiver answered 200 (C08: anything else is retried)
 //@ site return assert result1 == nil ==> result0 == (res.StatusCode == 200)
+
+// Enqueue accepts a submission exactly when it was put on the queue (C12: a submission reported accepted is
+// processed and answered by the worker; one reported refused is answered with queue-full by the caller; never
+// both, never neither).
+//@ func (*Http).Enqueue
+//@ props C12
+//@ nopanic C13
+//@ requires h != nil && h.sq != nil && !closed(h.sq)
+//@ ensures result == (sends(h.sq) == 1)
+//@ ensures sends(h.sq) <= 1
+
+// The worker loop: every message taken from the queue is processed once and its Done callback is invoked once
+// (C12, C08: the sender's completion for a hand-off is produced exactly once; the loop ends only on a closed queue).
+//@ func (*HttpWorker).Start
+//@ props C12 C08 C19
+//@ abstract-calls .*
+//@ funcvalue \.Done$ records done
+//@ requires w != nil
+//@ site call Process assert data == msg.Data && body == msg.Body
+//@ site loop 1 backedge assert itercalls("Process") == 1 && itercalls("done") == 1
+//@ site return assert !ok
